@@ -68,15 +68,63 @@ class Run:
         shutil.rmtree(self.tmp, ignore_errors=True)
 
     # ------------------------------------------------------------------ Lean side
+    def regenerate_facts(self):
+        """T1: rebuild the fact extractor and regenerate lean/KamalProxy/Generated/Facts.lean from /repo's working tree"""
+        rc, out = sh([os.path.join(ROOT, 'build_verifx.sh')], timeout=600)
+        if rc != 0:
+            return False, 'verifx does not build: ' + out[-1500:]
+        rc, out = sh([os.path.join(BUILD, 'verifx')], timeout=300, cwd=ROOT)
+        if rc != 0:
+            return False, 'verifx failed on /repo (does the tree type-check?): ' + out[-1500:]
+        return True, out.strip()
+
     def lean_obligations(self):
+        res = dict(theorems=[], discharged=[], broken=[], build_ok=True, log='', tie_broken=False)
+        import fcntl
+        lock = open(os.path.join(BUILD, 'lean.lock'), 'w')
+        fcntl.flock(lock, fcntl.LOCK_EX)
+        try:
+            return self._lean_obligations(res)
+        finally:
+            fcntl.flock(lock, fcntl.LOCK_UN)
+
+    def _lean_obligations(self, res):
+        ok, msg = self.regenerate_facts()
+        if not ok:
+            res['broken'].append('tie T1: ' + msg)
+            res['tie_broken'] = True
+        else:
+            self.notes.append('T1 facts: ' + msg)
         mods = [f'KamalProxy.Properties.{self.pid}']
+        tie = os.path.exists(os.path.join(LEAN, 'KamalProxy', 'Tie', f'{self.pid}.lean'))
         rc, out = sh(['lake', 'build'] + mods + ['kpmodel'], cwd=LEAN, timeout=1500)
-        res = dict(theorems=[], discharged=[], broken=[], build_ok=(rc == 0), log=out[-4000:])
+        res['build_ok'] = (rc == 0)
+        res['log'] = out[-4000:]
         if rc != 0:
             errs = [l for l in out.split('\n') if 'error' in l][:10]
-            res['broken'] = [f'lake build failed: {e}' for e in errs] or ['lake build failed']
+            res['broken'] += [f'lake build failed: {e}' for e in errs] or ['lake build failed']
             return res
+        if tie and ok:
+            rc, out = sh(['lake', 'build', f'KamalProxy.Tie.{self.pid}'], cwd=LEAN, timeout=1500)
+            if rc != 0:
+                res['tie_broken'] = True
+                res['log'] = out[-4000:]
+                src = open(os.path.join(LEAN, 'KamalProxy', 'Tie', f'{self.pid}.lean')).read().split('\n')
+                names = []
+                for l in out.split('\n'):
+                    m = re.match(r'error: KamalProxy/Tie/\w+\.lean:(\d+):', l)
+                    if m:
+                        for k in range(min(int(m.group(1)), len(src)) - 1, -1, -1):
+                            t = re.match(r'\s*theorem (\S+)', src[k])
+                            if t:
+                                names.append(f'KamalProxy.{self.pid}.{t.group(1)}')
+                                break
+                names = sorted(set(names))
+                res['broken'] += [f'tie T1: {n} no longer holds of the facts regenerated from /repo (Generated/Facts.lean)' for n in names] or ['tie T1: KamalProxy.Tie.' + self.pid + ' does not build: ' + out[-300:]]
+            else:
+                mods.append(f'KamalProxy.Tie.{self.pid}')
         tmpl = open(os.path.join(LEAN, 'audit', 'template.lean.in')).read().replace('@ID@', self.pid)
+        tmpl = tmpl.replace('@TIEIMPORT@', f'import KamalProxy.Tie.{self.pid}' if f'KamalProxy.Tie.{self.pid}' in mods else '')
         af = os.path.join(self.tmp, 'audit.lean')
         open(af, 'w').write(tmpl)
         rc, out = sh(['lake', 'env', 'lean', af], cwd=LEAN, timeout=600)
